@@ -23,13 +23,14 @@ func envInt(name string, def int) int {
 }
 
 type session struct {
-	p        *ev.Prop
-	rec      *ev.Recorder
-	findings ev.Findings
-	outdir   string
-	shard    int
-	failed   bool
-	printedK map[string]bool
+	p         *ev.Prop
+	rec       *ev.Recorder
+	findings  ev.Findings
+	outdir    string
+	shard     int
+	fileShard int
+	failed    bool
+	printedK  map[string]bool
 }
 
 func safeCheck(p *ev.Prop, c any) (v *ev.Verdict) {
@@ -46,7 +47,7 @@ func (s *session) handle(c any, enumerated bool, replayPath string) string {
 	v := safeCheck(s.p, c)
 	s.rec.Observe(c, v, enumerated)
 	if v.HarnessError != "" {
-		path := filepath.Join(s.outdir, fmt.Sprintf("harness-error-%d.json", s.shard))
+		path := filepath.Join(s.outdir, fmt.Sprintf("harness-error-%d.json", s.fileShard))
 		ev.WriteReplay(path, s.p.ID, c, &ev.Verdict{Violation: "HARNESS: " + v.HarnessError})
 		fmt.Printf("VERIF-HARNESS-ERROR property=%s file=%s :: %s\n", s.p.ID, path, v.HarnessError)
 		return "harness error: " + v.HarnessError
@@ -64,7 +65,7 @@ func (s *session) handle(c any, enumerated bool, replayPath string) string {
 	}
 	path := replayPath
 	if path == "" {
-		path = filepath.Join(s.outdir, fmt.Sprintf("violation-%d.json", s.shard))
+		path = filepath.Join(s.outdir, fmt.Sprintf("violation-%d.json", s.fileShard))
 		ev.WriteReplay(path, s.p.ID, c, v)
 	}
 	fmt.Printf("VERIF-VIOLATION property=%s replay=%s class=%q :: %s\n", s.p.ID, path, v.Class, v.Violation)
@@ -93,15 +94,16 @@ func TestProp(t *testing.T) {
 		t.Fatalf("known findings: %v", err)
 	}
 	defer func() {
-		if err := s.rec.Write(s.outdir, s.shard); err != nil {
+		if err := s.rec.Write(s.outdir, s.fileShard); err != nil {
 			t.Errorf("writing report: %v", err)
 		}
 	}()
 
+	s.fileShard = envInt("VERIF_FILE_SHARD", s.shard)
 	if s.shard == 0 {
 		mb, _ := json.Marshal(map[string]any{"rule": p.Rule, "assumptions": p.Assumptions})
 		os.MkdirAll(s.outdir, 0o755)
-		os.WriteFile(filepath.Join(s.outdir, "meta.json"), mb, 0o644)
+		os.WriteFile(filepath.Join(s.outdir, "meta-"+id+".json"), mb, 0o644)
 	}
 
 	// 1. replay tier
